@@ -12,7 +12,7 @@ RULE = ('Part long: nets with one routed segment of 1500-20000 points (almost al
         'net.vias[via] equals the multiset of absolute positions with wildcards resolved and arrays expanded, net.wires[layer] equals the per-segment '
         'point lists (compared after resolving wildcards, so resolved and as-written forms are both accepted; width for special nets). Every text is parsed twice '
         'in a row and both results are compared with the model. '
-        'non-trivial: a net with >= 2 segments, a wildcard after a via, and a via array with n, m >= 2; distinct by SHA-1 of the model.')
+        'non-trivial: a net with >= 2 segments, a wildcard after a via, and a via array with n, m >= 2; distinct by SHA-1 of the model. One coordinate in ten lies between 2^53 and 2^62.')
 ASSUMPTIONS = ['supported subset only: non-negative integer coordinates, one ROUTED statement per net (optionally followed by one FIXED / COVER / NOSHIELD statement on a layer of its own), ROW with exactly one of DO/BY different from 1',
                'order inside net.vias[via] is not specified: compared as multisets']
 
@@ -20,7 +20,7 @@ IDENT = st.sampled_from(['u1', 'U22', 'core/reg_3_', 'n_12', 'clk', 'VDD', 'VSS'
 LAYERS = ['metal1', 'metal2', 'metal3', 'M4']
 VIANAMES = ['via1_4', 'via12', 'VIA23_X', 'via3_array', 'N/tap', 'FS.cut', 'W[2]', 'E-E', 'SOUTHvia', 'FW_12']     # names may start like an orientation
 ORIENTS = ['N', 'S', 'E', 'W', 'FN', 'FS', 'FE', 'FW']
-COORD = st.integers(0, 200000)
+COORD = st.one_of(*([st.integers(0, 200000)] * 9 + [st.integers(1 << 53, 1 << 62)]))          # sometimes values no double represents exactly
 
 
 @st.composite
